@@ -53,6 +53,25 @@ class CBORTag:
         self.value = value
 
 
+class _BoundStandIn:
+    """self.<method> taken as a value, with the caller's stand-in behind it (equal to the same method taken elsewhere)."""
+
+    def __init__(self, name, fn):
+        self.name, self.fn = name, fn
+
+    def __call__(self, *args):
+        return self.fn(None, *args)
+
+    def __eq__(self, other):
+        return isinstance(other, _BoundStandIn) and other.name == self.name
+
+    def __hash__(self):
+        return hash(("bound", self.name))
+
+    def __repr__(self):
+        return f"<bound {self.name}>"
+
+
 class Stub:
     """A stand-in object for evaluation: any method call on it returns a record of the call."""
 
@@ -440,10 +459,22 @@ def teval(t: Term, env: dict):
                 raise Unknown("lambda arity")
             return teval(body, {**env, **{"lamparam:" + n_: v_ for n_, v_ in zip(names, vals)}})
         return _fn
+    def _arg(x):
+        # with env["__opaque_args__"], an argument that has no value here is handed to a stand-in as an opaque object
+        if not env.get("__opaque_args__"):
+            return ev(x)
+        try:
+            return ev(x)
+        except Unknown:
+            return Stub("opaque")
+    if op == "bound" and len(a) == 2 and isinstance(a[0], Ref) and a[0].kind == "func" and a[0].obj.name in env.get("__calls__", {}):
+        # a method of the repository taken as a value (self.m): the stand-in given for it, bound
+        fn_ = env["__calls__"][a[0].obj.name]
+        return _BoundStandIn(a[0].obj.name, fn_)
     if op == "call" and a and not isinstance(a[0], Ref):
         f_ = ev(a[0])
         if callable(f_):
-            return f_(*[ev(x) for x in a[1:]])
+            return f_(*[_arg(x) for x in a[1:]])
         raise Unknown("call of a non-function")
     if op in ("bytes", "call:bytes") and len(a) == 1:
         v_ = ev(a[0])
@@ -479,7 +510,7 @@ def teval(t: Term, env: dict):
         # a repository function the caller of teval has given a stand-in for (an opaque callee of the evaluated function)
         args = []
         for x in a[1:]:
-            args.append(None if isinstance(x, Sym) and x.name in ("param:self", "param:cls") else ev(x))
+            args.append(None if isinstance(x, Sym) and x.name in ("param:self", "param:cls") else _arg(x))
         return env["__calls__"][a[0].obj.name](*args)
     if op == "list":
         out_ = []
